@@ -299,7 +299,7 @@ pub fn run_case(a: &Args, tag: &'static str, idx: u64, acc: &mut Acc) {
 }
 
 pub fn run(a: &Args) -> Acc {
-    let n = a.n(30000, 400000);
+    let n = a.n(80000, 600000);
     let mut acc = par_run(a, "c19", n, |a, idx, acc| run_case(a, "c19", idx, acc));
     acc.note("calibrated_physical_values", format!("{} of {} candidate values round-trip on the host filesystem", calibrated().len(), candidates().len()));
     acc
